@@ -12,7 +12,8 @@ ENGINES = {
                      'engines, harness-owned workers, clock and replies'),
     'shelve-rig': ('vf/rig.py', 'real shelve backend in a private directory, '
                    'client/foreman hop in process'),
-    'fsm-rig': ('vf/fsmrig.py', 'real pl.state.FSM with manual deferreds'),
+    'fsm-rig': ('vf/fsmrig.py', 'real pl.state.FSM (production mode) with '
+                'harness-completed background steps and pollers'),
     'generators': ('vf/engines.py', 'engine-spec generator, materialiser and '
                    'reference dependency graph'),
     'standalone': ('vf/props', 'self-contained generators per property'),
@@ -309,6 +310,30 @@ CHECKS = {
         'applicable violations of a generated small package (50-200 each).',
         'base-class / factory-signature violations in the legacy style '
         'only; CLI run for 1 accepted package in 40.',
+    ),
+    'C10': (
+        'fsm-rig', 'exploration',
+        'exhaustive enumeration of event words up to a bound + Hypothesis '
+        'words on the real FSM with harness-completed background steps; '
+        'oracle: arcs parsed from state.dot and a hand-written table of the '
+        'documented arcs, invariants after every event',
+        'The real FSM runs in production mode on a real shelve store and a '
+        'generated engine; deferToThread is replaced by a queue the harness '
+        'completes in any order. Events: boot, complete step j, git, staged, '
+        'archive (farm.dispatch with new data), update, submissions through '
+        'the real fe.submit / fe.api.submit Process (accepted, failing in '
+        'step 2, refused), and every trigger that state.dot does not allow '
+        'in the current state. Checked after every event: each state change '
+        'is a documented arc; archiving returns to where it came from; a '
+        'rejected trigger and a refused submission change nothing (state, '
+        'transitioning, prior, outstanding steps, ARCHIVE, priority, waiter '
+        'flags); is_pipeline_active only at rest in running with no step '
+        'outstanding; no background step raises; after completing all steps '
+        'the machine rests in running or gitting; each update performs '
+        'exactly one reload/refresh. Part bounded is exhaustive over all '
+        'words of length <= 3 (quick) / 5 (thorough) of a 9-letter alphabet.',
+        'step callbacks serialised (no OS-thread races); GnuPG/GUI/log '
+        'server/git/module reload stubbed.',
     ),
 }
 
